@@ -245,8 +245,11 @@ class Func(Part):
 
 @st.composite
 def e2e_cases(draw):
+    # (a layer whose setUp raises is still a selected layer: it is announced once, at its place in the order, and so
+    # is every layer built on it)
     spec = draw(gen.worlds(max_layers=5, min_layers=2, hooks='layer', kinds=('pass',), max_modules=3, depth=1,
-                           max_tests=2, layer_decl=85, explicit_unit=True, max_children=3))
+                           max_tests=2, layer_decl=85, explicit_unit=True, max_children=3,
+                           faults=draw(st.sampled_from([None, None, None, {'setUp': 25}]))))
     if draw(st.booleans()):
         for L, nm in zip(spec['layers'], draw(st.permutations(TRICKY))):
             L['name'] = nm
@@ -330,19 +333,111 @@ class EndToEnd(Part):
         return Outcome(viol, ['layers:%d' % len(headers[0])], len(headers[0]) >= 3 and nedges >= 1)
 
 
+@st.composite
+def modes_cases(draw):
+    """worlds whose layers differ in size and take a little time, run with -j N where N is smaller than the number of
+    layers (so that layers have to wait for a slot), or resumed one after the other"""
+    spec = draw(gen.worlds(max_layers=5, min_layers=3, hooks='layer', kinds=('pass',), max_modules=2, depth=1,
+                           max_tests=4, layer_decl=95, explicit_unit=True, max_children=5))
+    if draw(st.integers(0, 2)) == 0:
+        for L, nm in zip(spec['layers'], draw(st.permutations(TRICKY))):
+            L['name'] = nm
+    for L in spec['layers']:
+        L['hooks'] = sorted(set(L['hooks']) | {'setUp', 'tearDown'}, key=gen.HOOKS.index)
+    tests = [t for _, t in gen.iter_tests(spec)]
+    for t in tests:
+        t.setdefault('acts', {}).setdefault('body', []).append(['sleep', draw(st.sampled_from([0.02, 0.05, 0.15]))])
+    die = None
+    if draw(st.integers(0, 3)) == 0:
+        # a layer subprocess that ends without a report (os._exit in a test): the layer was still run once
+        i = draw(st.integers(0, len(tests) - 1))
+        tests[i]['acts']['body'].append(['in_child', ['die', draw(st.sampled_from(['exit3', 'kill']))]])
+        die = i
+    return {'spec': spec, 'j': draw(st.sampled_from([2, 2, 2, 3])), 'verbose': draw(st.integers(0, 2)), 'die': die}
+
+
+class Modes(Part):
+    """the layer order of a -j N run: announced in the sequential order, every layer run by exactly one subprocess, and
+    slots handed out in that order (when the subprocess of the layer at position p starts, at least p-(N-1) of the
+    layers before it have already ended)"""
+    name = 'modes'
+    examples = {'quick': 96, 'thorough': 3000}
+
+    def strategy(self, tier):
+        return modes_cases()
+
+    def execute(self, case):
+        spec = common.with_prefix(case['spec'])
+        n = case['j']
+        viol = []
+        seq = drive.run_inproc(spec, common.args_of({'verbose': case['verbose']}), disk=True)
+        par = drive.run_inproc(spec, common.args_of({'verbose': case['verbose'], 'j': n}), disk=True)
+        viol += common.run_escaped(par, 'C10')
+        w = common.traceana.World(spec)
+        order = [b.layer for b in parse.parse(seq.out).blocks]
+        sh = lambda x: str(x).replace(spec['mp'], '')    # noqa: E731
+        labels = ['N=%d' % n, 'layers:%d' % len(order)] + (['child-dies'] if case['die'] is not None else [])
+        if par.exc is not None or seq.exc is not None or len(set(order)) != len(order):
+            return Outcome(viol, labels, False)
+        from .c06 import strip_keepalive
+        hp = [b.layer for b in parse.parse(strip_keepalive(par.out)).blocks if b.layer != '.EmptyLayer']
+        if hp != order:
+            viol.append(('C10/order-differs-with-j', 'sequential run announces %s, -j %d announces %s'
+                         % (sh(order), n, sh(hp))))
+        # which process ran which layer's tests
+        pids = {}
+        for pid, tid in common.test_starts(par.trace):
+            rec = w.tests.get(tid)
+            if rec is not None and pid != par.main_pid:
+                pids.setdefault(rec['layer_name'], set()).add(pid)
+        for ln, ps in pids.items():
+            if len(ps) > 1:
+                viol.append(('C10/layer-run-twice', 'tests of layer %s were run by %d subprocesses' % (sh(ln), len(ps))))
+        first, last, ended = {}, {}, {}
+        for e in par.trace:
+            if 't' in e and e['pid'] != par.main_pid:
+                first.setdefault(e['pid'], e['t'])
+                last[e['pid']] = e['t']
+                if e['ev'] == 'child_exit':
+                    ended[e['pid']] = e['t']
+        start_of, end_of = {}, {}
+        for ln, ps in pids.items():
+            if len(ps) == 1:
+                pid = next(iter(ps))
+                start_of[ln] = first[pid]
+                end_of[ln] = ended.get(pid, last[pid])
+        waited = False
+        for p, ln in enumerate(order):
+            if ln not in start_of or p < n:
+                continue
+            waited = True
+            before = [x for x in order[:p] if x in end_of]
+            if len(before) < p:
+                continue            # (a layer without executed tests: nothing to compare with)
+            done = sum(1 for x in before if end_of[x] < start_of[ln])
+            if done < p - (n - 1):
+                viol.append(('C10/slots-not-in-layer-order', 'with -j %d the subprocess of %s (position %d of %s) started '
+                             'when only %d of the layers before it had ended' % (n, sh(ln), p, sh(order), done)))
+                break
+        return Outcome(viol, labels, waited)
+
+
 class C10(Prop):
     id = 'C10'
     registered = True
     technique = 'exhaustive enumeration of layer DAGs (<=4) x bases orders x subsets x input permutations x 4 hash seeds; Hypothesis DAGs beyond; metamorphic end-to-end re-runs'
-    level_text = 'order_by_bases is evaluated on every DAG with <=4 layers in every input permutation and under four PYTHONHASHSEEDs and must return the same permutation with unit layer first and bases first; generated worlds are run twice with modules renamed/reordered and must print the same layer sequence, each layer once and contiguous.'
+    level_text = 'order_by_bases is evaluated on every DAG with <=4 layers in every input permutation and under four PYTHONHASHSEEDs and must return the same permutation with unit layer first and bases first; generated worlds are run twice with modules renamed/reordered and must print the same layer sequence, each layer once and contiguous; -j N runs must announce the same order, run each layer in exactly one subprocess and hand out the N slots in that order.'
     level_note = 'Exhaustive only inside the stated bound; layer names are distinct; helper interpreters are trusted to run the same code.'
     rule = ('func: exhaustive DAGs on <=4 layers x bases-tuple orders x instance/class layers x selected subsets '
             '(with/without unit layer), all input permutations inside each case, plus 3 other PYTHONHASHSEEDs; '
             'Hypothesis DAGs on 5..6 layers, half of them with names that differ only in case / are prefixes of each other. e2e: generated worlds run twice (modules renamed/reordered, suites '
-            'reversed, --layer options reversed). Non-trivial = >=3 selected layers and >=1 base edge. Enumerated '
+            'reversed, --layer options reversed; a quarter with layers whose setUp raises). Non-trivial = >=3 selected '
+            'layers and >=1 base edge. modes: worlds with >=3 layers of different sizes run sequentially and with -j N: same '
+            'announced order, one subprocess per layer (also when a child dies without a report), slots handed out in layer '
+            'order (trace time stamps); non-trivial = a layer had to wait for a slot. Enumerated '
             'cases are distinct by construction.')
     assumptions = ('layer names are distinct within a run', 'the order of a bases tuple is part of the layer graph')
-    parts = (Func(), EndToEnd())
+    parts = (Func(), EndToEnd(), Modes())
 
 
 PROP = C10()
